@@ -331,7 +331,8 @@ def setOption (name : Str) (value : PyVal) : M Unit := do
     else if value.eqTrue || value == .str "true".toList then documentInit
     else errorCallback ("illegal reset API option value: ".toList ++ value.toStr)
   else if name == "htmlReplacement".toList then
-    modify fun s => { s with htmlReplacement := value.toStr }
+    -- U+0000..U+0002 are used internally by spans and macros: blanked as in `io.Reader`
+    modify fun s => { s with htmlReplacement := blankReserved value.toStr }
   else
     errorCallback ("illegal API option name: ".toList ++ name)
 
@@ -676,6 +677,8 @@ def renderListLoop (rec : Rec) (env : Env) : Nat → ItemInfo → Reader → Wri
       | some n => n.id == item.id
       | none => false
     if !continues then
+      -- `ids.pop()`: IndexError on an empty stack
+      if (← get).listIds == [] then raise (.indexError "ids.pop()")
       modify fun s => { s with listIds := s.listIds.dropLast }
       return (nextItem, reader, writer.write item.listdef.listCloseTag)
     match nextItem with
@@ -736,7 +739,11 @@ def renderItemLoop (rec : Rec) (env : Env) : Nat → Reader → Writer → Write
         modify fun s => { s with listIds := savedIds }
         renderItemLoop rec env fuel reader itemLines attachedLines attachedDone
       else if blankLines == 1 then
+        -- the attached block may be a container whose content holds lists of its own
+        let savedIds := (← get).listIds
+        modify fun s => { s with listIds := [] }
         let (done, reader, attachedLines) ← delimitedRender rec env reader attachedLines attachedAllowed1
+        modify fun s => { s with listIds := savedIds }
         if done then renderItemLoop rec env fuel reader itemLines attachedLines true
         else return (none, reader, itemLines, attachedLines)
       else
